@@ -15,6 +15,14 @@ Definition dataclass_attrs : list string :=
 Definition plain : env :=
   {| e_base := object_attrs ++ dataclass_attrs; e_own := dataclass_attrs; e_fields := []; e_nt := false; e_tdcm := td_own_classmethods |}.
 Definition disp_of (n : string) : disp := dispatch plain install_steps n.
+(* the same function with the installation result shared (so that vm_compute runs the installation once per theorem) *)
+Definition disp_st (st : installed) (n : string) : disp :=
+  match lookup n st with
+  | Some k => DInstalled k
+  | None => if mem n (e_base plain) then DInherited else if mem n (e_fields plain) then DField else if is_dunder n then DAbsent else DGetattr
+  end.
+Lemma disp_st_is_dispatch : forall n, disp_st (install plain install_steps) n = disp_of n.
+Proof. reflexivity. Qed.
 
 Definition wrap_tables : list string := tbl_wrap ++ tbl_force ++ tbl_copy.
 Definition nowrap_tables : list string := tbl_nowrap ++ tbl_direct.
@@ -31,7 +39,8 @@ Print Assumptions C15_tables_exist.
 
 (* _FORCE and _COPY names end up served by the re-wrapping wrapper (FORCE beats object's comparison dunders) *)
 Definition is_wrap (d : disp) : bool := match d with DInstalled (KWrap _) => true | _ => false end.
-Theorem C15_force_copy_are_wrapped : forallb (fun n => is_wrap (disp_of n)) (tbl_force ++ tbl_copy) = true.
+Theorem C15_force_copy_are_wrapped :
+  let st := install plain install_steps in forallb (fun n => is_wrap (disp_st st n)) (tbl_force ++ tbl_copy) = true.
 Proof. vm_compute. reflexivity. Qed.
 Print Assumptions C15_force_copy_are_wrapped.
 
@@ -44,52 +53,54 @@ Definition ikind_eqb (a b : ikind) : bool :=
   | KWrap x, KWrap y => Bool.eqb x y
   | _, _ => false
   end.
-Definition dispatched_once (n : string) : bool :=
-  match claims_of install_steps n, disp_of n with
+Definition dispatched_once (st : installed) (n : string) : bool :=
+  match claims_of install_steps n, disp_st st n with
   | [k], DInstalled k' => ikind_eqb k k'
   | [], DInstalled KClassmethod => true
   | [], DGetattr => true
   | _, _ => false
   end.
-Theorem C15_public_dispatch_unique : forallb dispatched_once td_public = true.
+Theorem C15_public_dispatch_unique : let st := install plain install_steps in forallb (dispatched_once st) td_public = true.
 Proof. vm_compute. reflexivity. Qed.
 Print Assumptions C15_public_dispatch_unique.
 
 (* a property of TensorDict is never served by a method wrapper that re-wraps or by TensorDict's raw function *)
-Definition property_ok (n : string) : bool :=
-  match disp_of n with
+Definition property_ok (st : installed) (n : string) : bool :=
+  match disp_st st n with
   | DInstalled KNoWrap | DInstalled KExplicit | DGetattr | DInherited => true
   | _ => false
   end.
-Theorem C15_properties_stay_properties : forallb property_ok td_properties = true.
+Theorem C15_properties_stay_properties : let st := install plain install_steps in forallb (property_ok st) td_properties = true.
 Proof. vm_compute. reflexivity. Qed.
 Print Assumptions C15_properties_stay_properties.
 
 (* non-callable, non-property class attributes: installed through the no-wrap table they become bound methods.
    The statement for every such public attribute is false of /repo (is_meta, finding D153). *)
-Definition attribute_ok (n : string) : bool :=
-  match disp_of n with DInstalled KNoWrap | DInstalled (KWrap _) | DInstalled KDirect => false | _ => true end.
+Definition attribute_ok (st : installed) (n : string) : bool :=
+  match disp_st st n with DInstalled KNoWrap | DInstalled (KWrap _) | DInstalled KDirect => false | _ => true end.
 Definition C15_attributes_stay_attributes_full_statement : Prop :=
-  forall n, In n td_noncallable -> In n td_public -> attribute_ok n = true.
+  forall n, In n td_noncallable -> In n td_public -> attribute_ok (install plain install_steps) n = true.
 Theorem C15_attributes_stay_attributes_refuted :
-  exists n, In n td_noncallable /\ In n td_public /\ attribute_ok n = false.
+  exists n, In n td_noncallable /\ In n td_public /\ attribute_ok (install plain install_steps) n = false.
 Proof. exists "is_meta". vm_compute. repeat split; tauto. Qed.
 Print Assumptions C15_attributes_stay_attributes_refuted.
 Theorem C15_attributes_stay_attributes_partial :
-  forallb (fun n => negb (mem n td_public) || String.eqb n "is_meta" || attribute_ok n) td_noncallable = true.
+  let st := install plain install_steps in
+  forallb (fun n => negb (mem n td_public) || String.eqb n "is_meta" || attribute_ok st n) td_noncallable = true.
 Proof. vm_compute. reflexivity. Qed.
 Print Assumptions C15_attributes_stay_attributes_partial.
 
 (* operators: Python looks a dunder up on the type, so __getattr__ cannot supply it.  "Every dunder the tensordict classes
    define is on the class" is false of /repo (findings D162, D163). *)
-Definition operator_ok (n : string) : bool := match disp_of n with DAbsent => false | _ => true end.
-Definition C15_operators_dispatched_full_statement : Prop := forall d, In d td_api_dunders -> operator_ok d = true.
+Definition operator_ok (st : installed) (n : string) : bool := match disp_st st n with DAbsent => false | _ => true end.
+Definition C15_operators_dispatched_full_statement : Prop :=
+  forall d, In d td_api_dunders -> operator_ok (install plain install_steps) d = true.
 Definition missing_operators : list string := ["__contains__"; "__delitem__"; "__iter__"].
-Theorem C15_operators_dispatched_refuted : exists d, In d td_api_dunders /\ operator_ok d = false.
+Theorem C15_operators_dispatched_refuted : exists d, In d td_api_dunders /\ operator_ok (install plain install_steps) d = false.
 Proof. exists "__delitem__". vm_compute. split; tauto. Qed.
 Print Assumptions C15_operators_dispatched_refuted.
 Theorem C15_operators_dispatched_partial :
-  forallb (fun d => mem d missing_operators || operator_ok d) td_api_dunders = true.
+  let st := install plain install_steps in forallb (fun d => mem d missing_operators || operator_ok st d) td_api_dunders = true.
 Proof. vm_compute. reflexivity. Qed.
 Print Assumptions C15_operators_dispatched_partial.
 
@@ -213,7 +224,8 @@ Example C15_ex_set : set_field ["x"; "o"] false {| o_autocast := false; o_nocast
     {| s_td := [("x", VTensor 1)]; s_nt := [("o", NNone)] |} "o" VkNumber 5
   = SOk {| s_td := [("x", VTensor 1); ("o", VTensor 5)]; s_nt := [] |}.
 Proof. reflexivity. Qed.
-Example C15_ex_dispatch : disp_of "reshape" = DInstalled (KWrap false) /\ disp_of "__ge__" = DInstalled (KWrap false)
-  /\ disp_of "clone" = DInstalled (KWrap true) /\ disp_of "keys" = DInstalled KNoWrap /\ disp_of "memmap" = DInstalled KDirect
-  /\ disp_of "set" = DInstalled KExplicit /\ disp_of "from_module" = DInstalled KClassmethod /\ disp_of "__delitem__" = DAbsent.
-Proof. vm_compute. repeat split; reflexivity. Qed.
+Example C15_ex_dispatch : let st := install plain install_steps in
+  map (disp_st st) ["reshape"; "__ge__"; "clone"; "keys"; "memmap"; "set"; "from_module"; "__delitem__"]
+  = [DInstalled (KWrap false); DInstalled (KWrap false); DInstalled (KWrap true); DInstalled KNoWrap; DInstalled KDirect;
+     DInstalled KExplicit; DInstalled KClassmethod; DAbsent].
+Proof. vm_compute. reflexivity. Qed.
